@@ -60,8 +60,32 @@ GUARDS = {
     "np.max(cutoffs) >= y.shape[0]": ("GCutoffBeyond", True),
     "np.max(cutoffs) + np.max(fh) >= y.shape[0]": ("GCutoffFhBeyond", True),
     "window_length + fh_max >= n_timepoints": ("GReduceTooShort", True),
+    # the feasibility tests of the window splitters (`_check_window_lengths`, wherever they live);
+    # keys are in canonical form: temporaries replaced, `a < b` written `b > a`
+    "window_length + fh[-1] > y.shape[0]": ("GWlTooLong", True),
+    "initial_window + fh[-1] > y.shape[0]": ("GIwTooLong", True),
+    "initial_window is not None": ("GIwGiven", True),
     "self.refit": ("GRefit", True),
 }
+
+class _Mirror(ast.NodeTransformer):
+    """`a < b` -> `b > a`, `a <= b` -> `b >= a`: one spelling per comparison."""
+
+    def visit_Compare(self, node):
+        self.generic_visit(node)
+        if len(node.ops) == 1 and isinstance(node.ops[0], (ast.Lt, ast.LtE)):
+            op = ast.Gt() if isinstance(node.ops[0], ast.Lt) else ast.GtE()
+            return ast.Compare(left=node.comparators[0], ops=[op], comparators=[node.left])
+        return node
+
+
+def canon(node):
+    return ast.unparse(_Mirror().visit(copy.deepcopy(node)))
+
+
+def _canon_guards():
+    return {canon(ast.parse(k, mode="eval").body): v for k, v in GUARDS.items()}
+
 
 MUT_ATTRS = {"self._y": "A_y", "self._X": "A_X", "self._fh": "A_fh", "self._cutoff": "A_cutoff"}
 DATA_ARGS = {"y": "y", "X": "X", "y_new": "y", "Z": "y"}
@@ -103,7 +127,8 @@ def v_check_y_X(c, ctx):
         _pos(c, ["y", "X"])
         withx = True
     kw = _kw(c, ("allow_empty", "enforce_index_type"))
-    if "enforce_index_type" in kw and ast.unparse(kw["enforce_index_type"]) != "enforce_index_type":
+    if "enforce_index_type" in kw and ast.unparse(kw["enforce_index_type"]) not in (
+            "enforce_index_type", "None"):
         raise Unsupported("enforce_index_type in " + ast.unparse(c))
     return "(VCheckYX %s %s)" % (_cb(_const(kw.get("allow_empty"), False)), _cb(withx and ctx.x_given))
 
@@ -142,7 +167,7 @@ def v_set_fh(c, ctx):
 def v_check_fh(c, ctx):
     a = [ast.unparse(x) for x in c.args]
     kw = _kw(c, ("enforce_relative",))
-    if a == ["self.fh"]:
+    if a in (["self.fh"], ["cv.fh"]):
         src = "FhSelf"
     elif a == ["fh"]:
         src = "FhArg"
@@ -219,7 +244,6 @@ VALIDATORS = {
     "check_cutoffs": v_attr("VCheckCutoffs", {"self.cutoffs": ""}),
     "self._check_forecasters": v_noargs("VForecasters"),
     "self._check_steps": v_noargs("VSteps"),
-    "_check_window_lengths": v_windows_fit,
     "_infer_scitype": v_name("VInferScitype", "estimator"),
 }
 # per source file: names that mean something else there
@@ -231,36 +255,31 @@ VALIDATORS_BY_FILE = {
         "_check_scitype": v_name("VScitype", "scitype"),
         "_check_fh": None},                                    # asserts only (pinned below)
     "sktime/forecasting/model_selection/_split.py": {
-        "_check_fh": v_split_check_fh,
-        "_check_y": v_name("VTimeIndex", "y")},
+        "check_time_index": v_name("VTimeIndex", "y")},
 }
 CHECKLIKE = re.compile(r"(^|\.)(_?check_\w*|_set_fh|_set_y_X|_update_y_X|_update_X|check_is_fitted"
                        r"|_infer_scitype|_set_cutoff)$")
 
 # helper calls inlined at the call site: callee -> (source file, path, expected argument text)
 HELPERS = {
-    "self._set_y_X": ("sktime/forecasting/base/_sktime.py", "_SktimeForecaster._set_y_X",
-                      ["(y, X)"], {}),
-    "self._update_y_X": ("sktime/forecasting/base/_sktime.py", "_SktimeForecaster._update_y_X",
-                         ["(y, X)"], {}),
-    "_split_by_fh": ("sktime/forecasting/model_selection/_split.py", "_split_by_fh",
-                     ["(y, fh, X=X)"], {}),
     "super(ThetaForecaster, self).fit": (
         "sktime/forecasting/base/adapters/_statsmodels.py", "_StatsModelsAdapter.fit",
         ["(y, fh=fh)"], {"x_given": False}),
 }
 
 # source shapes the tables above rely on (checked verbatim, fail-closed)
-PINS = [
-    ("sktime/forecasting/model_selection/_split.py", "_check_fh",
-     "return check_fh(fh, enforce_relative=True)"),
-    ("sktime/forecasting/compose/_reduce.py", "_check_fh",
-     "assert fh.is_relative\nassert fh.is_all_out_of_sample()\nreturn fh.to_indexer().to_numpy()"),
-    ("sktime/forecasting/base/_sktime.py", "_SktimeForecaster._set_cutoff", "self._cutoff = cutoff"),
-    ("sktime/forecasting/base/_sktime.py", "_SktimeForecaster.fh",
-     "if self._fh is None:\n    raise ValueError('No `fh` has been set yet, please specify `fh` in "
-     "`fit` or `predict`')\nreturn self._fh"),
-]
+def check_pins(ctx):
+    """`self.fh` must be the property that raises when no horizon is known (the VFhKnown event)."""
+    fn = find(ctx.mod("sktime/forecasting/base/_sktime.py"), "_SktimeForecaster.fh")
+    if [ast.unparse(d) for d in fn.decorator_list] != ["property"]:
+        raise Unsupported("_SktimeForecaster.fh is not a property")
+    body = [s for s in fn.body if not _is_doc(s)]
+    ok = len(body) == 2 and isinstance(body[0], ast.If) and not body[0].orelse \
+        and ast.unparse(body[0].test) in ("self._fh is None", "not self._fh is not None") \
+        and len(body[0].body) == 1 and isinstance(body[0].body[0], ast.Raise) \
+        and isinstance(body[1], ast.Return) and ast.unparse(body[1].value) == "self._fh"
+    if not ok:
+        raise Unsupported("_SktimeForecaster.fh does not raise exactly when no horizon is known")
 
 
 class Ctx:
@@ -290,9 +309,11 @@ def _is_doc(s):
     return isinstance(s, ast.Expr) and isinstance(s.value, ast.Constant) and isinstance(s.value.value, str)
 
 
-def _obs_mutation(node):
+def _obs_mutation(node, skip=()):
     """Does the statement (deeply) assign an observable attribute / call _set_cutoff?"""
     for n in ast.walk(node):
+        if n in skip:
+            continue
         tg = []
         if isinstance(n, ast.Assign):
             tg = n.targets
@@ -319,124 +340,180 @@ class Chain:
             return          # work is checked to be free of validation / raises / mutations, not listed
         self.events.append((tuple(path), act))
 
-    def clean(self, node, what):
-        """A work statement: no raise, no validator-like call, no observable mutation."""
+    def clean(self, node, what, skip=()):
+        """Work: no raise, no validator-like call (except the handled ones), no observable mutation."""
         for n in ast.walk(node):
             if isinstance(n, ast.Raise):
                 raise Unsupported("%s: raise inside %s" % (self.cfg["path"], what))
         vals = self.ctx.validators()
+        inside = set()
+        for h in skip:
+            for x in ast.walk(h):
+                inside.add(x)
         for c in _calls(node):
+            if c in inside:
+                continue
             u = ast.unparse(c.func)
             if u in vals and vals[u] is None:
                 continue
-            if u in vals or u in HELPERS or CHECKLIKE.search(u):
+            if u in vals or u in HELPERS:
                 raise Unsupported("%s: validator call %s inside %s" % (self.cfg["path"], u, what))
-        if _obs_mutation(node):
+            if CHECKLIKE.search(u):
+                st, _ = Chain(self.ctx, dict(self.cfg)).follow(c, [])
+                if st != "empty":
+                    raise Unsupported("%s: validator call %s inside %s" % (self.cfg["path"], u, what))
+        if _obs_mutation(node, inside):
             raise Unsupported("%s: state mutation inside %s" % (self.cfg["path"], what))
 
-    def fh_access(self, node, path):
+    def fh_access(self, node, path, skip=()):
         """`self.fh` raises when no horizon is known: a check of its own."""
+        inside = set()
+        for h in skip:
+            for x in ast.walk(h):
+                inside.add(x)
         for n in ast.walk(node):
+            if n in inside:
+                continue
             if isinstance(n, ast.Attribute) and ast.unparse(n) == "self.fh" \
                     and isinstance(n.ctx, ast.Load) and self.cfg.get("fh_property", True):
                 self.emit(path, "(AChk VFhKnown)")
                 return
 
-    def resolve_helper(self, f):
-        """A function of the same file / a method of the same class a call refers to."""
-        mod = self.ctx.mod(self.ctx.src)
-        if isinstance(f, ast.Name):
-            for n in mod.body:
-                if isinstance(n, ast.FunctionDef) and n.name == f.id:
-                    return n, False
+    # ---- helpers: resolved through the call graph, never by a fixed name -----------------------
+    def _class_def(self, src, name, depth=0):
+        """(source file, ClassDef) of a class visible under `name` in the file `src`."""
+        mod = self.ctx.mod(src)
+        for n in mod.body:
+            if isinstance(n, ast.ClassDef) and n.name == name:
+                return src, n
+        if depth >= 4:
             return None
-        if isinstance(f, ast.Attribute) and isinstance(f.value, ast.Name) and f.value.id == "self" \
-                and "." in self.cfg["path"]:
-            classes = {n.name: n for n in mod.body if isinstance(n, ast.ClassDef)}
-            todo, seen = [self.cfg["path"].split(".")[0]], set()
-            while todo:
-                c = todo.pop(0)
-                if c in seen or c not in classes:
-                    continue
-                seen.add(c)
-                for n in classes[c].body:
-                    if isinstance(n, ast.FunctionDef) and n.name == f.attr:
-                        static = any(ast.unparse(d) == "staticmethod" for d in n.decorator_list)
-                        return n, not static
-                todo += [ast.unparse(b) for b in classes[c].bases]
+        for n in mod.body:
+            if isinstance(n, ast.ImportFrom) and n.module and n.level == 0:
+                for a in n.names:
+                    if (a.asname or a.name) == name:
+                        base = n.module.replace(".", "/")
+                        for rel in (base + ".py", base + "/__init__.py"):
+                            if os.path.exists(os.path.join(self.ctx.repo, rel)):
+                                r = self._class_def(rel, a.name, depth + 1)
+                                if r is not None:
+                                    return r
+        return None
+
+    def _method_def(self, src, cls, name):
+        """(file, FunctionDef, takes_self) of `cls.name`, searching the bases (also in other files)."""
+        todo, seen = [(src, cls)], set()
+        while todo:
+            f, c = todo.pop(0)
+            if (f, c) in seen:
+                continue
+            seen.add((f, c))
+            r = self._class_def(f, c)
+            if r is None:
+                continue
+            f2, cd = r
+            for n in cd.body:
+                if isinstance(n, ast.FunctionDef) and n.name == name:
+                    static = any(ast.unparse(d) == "staticmethod" for d in n.decorator_list)
+                    return f2, n, not static
+            todo += [(f2, ast.unparse(b)) for b in cd.bases]
+        return None
+
+    def resolve_helper(self, f):
+        """The definition a call refers to: a function of the same file, or a method of the class
+        of the entry point (or of one of its bases, wherever they are defined)."""
+        if isinstance(f, ast.Name):
+            for n in self.ctx.mod(self.ctx.src).body:
+                if isinstance(n, ast.FunctionDef) and n.name == f.id:
+                    return self.ctx.src, n, False
+            return None
+        if isinstance(f, ast.Attribute) and isinstance(f.value, ast.Name) and f.value.id == "self":
+            cls = self.cfg.get("cls") or (self.cfg["path"].split(".")[0] if "." in self.cfg["path"]
+                                          else None)
+            if cls is not None:
+                return self._method_def(self.cfg.get("cls_src", self.ctx.src), cls, f.attr)
         return None
 
     def follow(self, call, path):
-        """Walk the body of a same-file helper in place of the call. Returns the caller's path after
-        the call (narrowed by the helper's raise guards) if the helper has events, else None."""
+        """Walk the body of a private helper in place of the call.  Returns ("events", path after
+        the call - narrowed by the helper's raise guards), ("empty", path) if the helper contains
+        nothing the chain lists, or ("fail", path) if it is not a followable helper."""
         nm = call.func.id if isinstance(call.func, ast.Name) else getattr(call.func, "attr", "")
         if not nm.startswith("_") or nm.startswith("__"):
-            return None          # public API is an entry point of its own (and may be overridden)
+            return "fail", path  # public API is an entry point of its own (and may be overridden)
         r = self.resolve_helper(call.func)
-        if r is None or len(self.cfg.get("_stack", ())) >= 4:
-            return None
-        fn, takes_self = r
+        stack = tuple(self.cfg.get("_stack", ()))
+        if r is None or len(stack) >= 5:
+            return "fail", path
+        src, fn, takes_self = r
         body = [x for x in fn.body if not _is_doc(x)]
-        if len(body) == 1 and isinstance(body[0], ast.Raise):
-            return None                                          # abstract method
-        if fn.name in self.cfg.get("_stack", ()):
-            return None
+        if (len(body) == 1 and isinstance(body[0], ast.Raise)) or fn.name in stack:
+            return "fail", path                                  # abstract method / recursion
         a = fn.args
         if a.vararg or a.kwarg or a.kwonlyargs or a.posonlyargs \
                 or any(isinstance(x, ast.Starred) for x in call.args):
-            return None
+            return "fail", path
         names = [x.arg for x in a.args][1 if takes_self else 0:]
         dflt = dict(zip(names[len(names) - len(a.defaults):], a.defaults))
-        given = dict(zip(names, call.args))
         if len(call.args) > len(names):
-            return None
+            return "fail", path
+        given = dict(zip(names, call.args))
         for kw in call.keywords:
             if kw.arg is None or kw.arg not in names or kw.arg in given:
-                return None
+                return "fail", path
             given[kw.arg] = kw.value
         sub_map = {}
         for n in names:
             if n in given:
-                sub_map[n] = given[n]
+                sub_map[n] = self.subst_temps(given[n])
             elif n in dflt:
                 sub_map[n] = dflt[n]
             else:
-                return None
-        stored = {x.id for st in body for x in ast.walk(st)
-                  if isinstance(x, ast.Name) and isinstance(x.ctx, ast.Store)}
+                return "fail", path
+        # a parameter stands for its argument until the helper assigns to it
+        live = dict(sub_map)
 
         class Sub(ast.NodeTransformer):
             def visit_Name(self, node):
-                if isinstance(node.ctx, ast.Load) and node.id in sub_map and node.id not in stored:
-                    return copy.deepcopy(sub_map[node.id])
+                if isinstance(node.ctx, ast.Load) and node.id in live:
+                    return copy.deepcopy(live[node.id])
                 return node
-        body2 = [ast.fix_missing_locations(Sub().visit(copy.deepcopy(st))) for st in body]
-        sub = Chain(self.ctx, dict(self.cfg, blocks=(),
-                                   _stack=tuple(self.cfg.get("_stack", ())) + (fn.name,)))
+        body2 = []
+        for st in body:
+            st2 = ast.fix_missing_locations(Sub().visit(copy.deepcopy(st)))
+            body2.append(st2)
+            for x in ast.walk(st):
+                if isinstance(x, ast.Name) and isinstance(x.ctx, ast.Store):
+                    live.pop(x.id, None)
+        cls = self.cfg.get("cls") or (self.cfg["path"].split(".")[0] if "." in self.cfg["path"]
+                                      else None)
+        ctx2 = Ctx(self.ctx.repo, src, self.ctx.x_given)
+        ctx2.mods = self.ctx.mods
+        sub = Chain(ctx2, dict(self.cfg, blocks=(), _stack=stack + (fn.name,), cls=cls,
+                               cls_src=self.cfg.get("cls_src", self.ctx.src)))
         try:
             sub.walk(body2, list(path))
         except Unsupported:
-            return None                       # outside the walker's subset: opaque work, as before
+            return "fail", path               # outside the walker's subset: opaque work, as before
         if not sub.events:
-            return None
+            return "empty", path
         for p, act in sub.events:
             self.emit(p, act)
-        return list(sub.raise_path)
+        return "events", list(sub.raise_path)
 
     def validator_call(self, call, path):
-        """Emit the event(s) of a statement-level validator / helper call. Returns the path under
-        which the caller continues, or None if the call is neither."""
+        """Emit the event(s) of a validator / helper call. Returns the path under which the caller
+        continues, or None if the call is neither."""
         u = ast.unparse(call.func)
         vals = self.ctx.validators()
         if u in HELPERS:
             src, hpath, shapes, opts = HELPERS[u]
             args = ast.unparse(call)[len(u):]
-            args = re.sub(r"\by_new\b", "y", args)
             if args not in shapes:
                 raise Unsupported("%s: helper call %s" % (self.cfg["path"], ast.unparse(call)))
-            sub = Chain(Ctx(self.ctx.repo, src, opts.get("x_given", self.ctx.x_given)),
-                        dict(path=hpath, fh_property=self.cfg.get("fh_property", True)))
-            sub.ctx.mods = self.ctx.mods
+            ctx2 = Ctx(self.ctx.repo, src, opts.get("x_given", self.ctx.x_given))
+            ctx2.mods = self.ctx.mods
+            sub = Chain(ctx2, dict(path=hpath, fh_property=self.cfg.get("fh_property", True)))
             sub.walk(find(self.ctx.mod(src), hpath).body, list(path))
             for p, a in sub.events:
                 self.emit(p, a)
@@ -444,16 +521,61 @@ class Chain:
         if u in vals:
             if vals[u] is None:
                 return None
-            for a in list(call.args) + [k.value for k in call.keywords]:
+            call2 = self.subst_temps(call)        # `cv_fh = cv.fh; check_fh(cv_fh)`
+            for a in list(call2.args) + [k.value for k in call2.keywords]:
                 self.clean(a, "the arguments of " + u)
-            self.emit(path, "(AChk %s)" % vals[u](call, self.ctx))
+            self.emit(path, "(AChk %s)" % vals[u](call2, self.ctx))
             return path
-        p2 = self.follow(call, path)
-        if p2 is not None:
+        if u == "self._set_cutoff" and not self._followable(call):
+            self.emit(path, "(AMut A_cutoff)")
+            return path
+        st, p2 = self.follow(call, path)
+        if st == "events":
             return p2
-        if CHECKLIKE.search(u) and u != "self._set_cutoff":
+        if CHECKLIKE.search(u) and st == "fail":
             raise Unsupported("%s: unknown validator %s" % (self.cfg["path"], u))
         return None
+
+    def _followable(self, call):
+        return self.resolve_helper(call.func) is not None
+
+    def calls_in(self, node, path, handled, guarded=False):
+        """Validator / helper calls inside an expression, in evaluation order (arguments before the
+        call). A validator call that is only conditionally evaluated fails closed."""
+        for child in ast.iter_child_nodes(node):
+            g = guarded or isinstance(node, (ast.IfExp, ast.BoolOp, ast.Lambda, ast.GeneratorExp,
+                                             ast.ListComp, ast.SetComp, ast.DictComp))
+            path = self.calls_in(child, path, handled, g)
+        if isinstance(node, ast.Call):
+            u = ast.unparse(node.func)
+            vals = self.ctx.validators()
+            interesting = (u in HELPERS or (u in vals and vals[u] is not None)
+                           or CHECKLIKE.search(u) is not None
+                           or (u.split(".")[-1].startswith("_") and self._followable(node)))
+            if interesting:
+                before = len(self.events)
+                if guarded:
+                    # only a problem if the call really carries events
+                    probe = Chain(self.ctx, dict(self.cfg))
+                    probe.temps = getattr(self, "temps", {})
+                    if probe.validator_call(node, list(path)) is not None and probe.events:
+                        raise Unsupported("%s: conditionally evaluated validator call %s"
+                                          % (self.cfg["path"], u))
+                    return path
+                p2 = self.validator_call(node, path)
+                if p2 is not None or len(self.events) > before:
+                    handled.add(node)
+                    if p2 is not None:
+                        path = self.narrow(path, p2)
+        return path
+
+    def expr_events(self, expr, path, what):
+        """All events of evaluating an expression; what is left must be clean work."""
+        handled = set()
+        path = self.calls_in(expr, path, handled)
+        self.clean(expr, what, skip=handled)
+        self.fh_access(expr, path, skip=handled)
+        return path
 
     def mutation_targets(self, tg):
         out = []
@@ -468,25 +590,55 @@ class Chain:
         return out
 
     def guard(self, test):
-        """The guard a test stands for: by its text, or by its text after replacing temporaries
-        (`m = np.max(cutoffs)` ... `if m >= n:`) by their defining expressions."""
-        u = ast.unparse(test)
-        if u in GUARDS:
-            return GUARDS[u]
+        """The guard a test stands for, up to: `not`, the direction a comparison is written in,
+        and temporaries (`m = np.max(cutoffs)` ... `if m >= n:`) replaced by their definitions."""
+        table = _canon_guards()
+        u = canon(test)
+        if u in table:
+            return table[u]
         if isinstance(test, ast.UnaryOp) and isinstance(test.op, ast.Not):
             g = self.guard(test.operand)
             return None if g is None else (g[0], not g[1])
-        temps = getattr(self, "temps", {})
-        if temps:
-            class Sub(ast.NodeTransformer):
-                def visit_Name(self, node):
-                    if isinstance(node.ctx, ast.Load) and node.id in temps:
-                        return self.visit(copy.deepcopy(temps[node.id]))
-                    return node
-            u2 = ast.unparse(Sub().visit(copy.deepcopy(test)))
-            if u2 in GUARDS:
-                return GUARDS[u2]
+        u2 = canon(self.subst_temps(test))
+        if u2 in table:
+            return table[u2]
+        if isinstance(test, ast.Call) and not test.keywords \
+                and len(self.cfg.get("_stack", ())) < 5:
+            # a private predicate: `def _too_long(a, b, n): return a + b > n`
+            r = self.resolve_helper(test.func)
+            if r is not None:
+                _, fn, takes_self = r
+                body = [x for x in fn.body if not _is_doc(x)]
+                names = [x.arg for x in fn.args.args][1 if takes_self else 0:]
+                if len(body) == 1 and isinstance(body[0], ast.Return) and body[0].value is not None \
+                        and len(names) == len(test.args) and not fn.args.vararg and not fn.args.kwarg:
+                    m = {n: self.subst_temps(a) for n, a in zip(names, test.args)}
+
+                    class Sub(ast.NodeTransformer):
+                        def visit_Name(self, n):
+                            if isinstance(n.ctx, ast.Load) and n.id in m:
+                                return copy.deepcopy(m[n.id])
+                            return n
+                    inner = ast.fix_missing_locations(Sub().visit(copy.deepcopy(body[0].value)))
+                    saved = getattr(self, "temps", {})
+                    self.temps = {}
+                    try:
+                        return self.guard(inner)
+                    finally:
+                        self.temps = saved
         return None
+
+    def subst_temps(self, node):
+        temps = getattr(self, "temps", {})
+        if not temps:
+            return node
+
+        class Sub(ast.NodeTransformer):
+            def visit_Name(self, n):
+                if isinstance(n.ctx, ast.Load) and n.id in temps:
+                    return self.visit(copy.deepcopy(temps[n.id]))
+                return n
+        return ast.fix_missing_locations(Sub().visit(copy.deepcopy(node)))
 
     def note_temps(self, stmts):
         """Single-assignment temporaries with a side-effect-free right-hand side."""
@@ -547,27 +699,15 @@ class Chain:
             if isinstance(s, ast.Raise):
                 self.emit(path, "(AChk VRaise)")
                 return "raise"
-            if isinstance(s, ast.Expr) and isinstance(s.value, ast.Yield) \
-                    and isinstance(s.value.value, ast.Call):
-                p2 = self.validator_call(s.value.value, path)
-                if p2 is not None:
-                    path = self.narrow(path, p2)
-                    continue
+            if isinstance(s, (ast.Continue, ast.Break)):
+                return "return"                  # ends this pass through the loop body
+            if isinstance(s, ast.Expr) and isinstance(s.value, ast.Yield) and s.value.value is not None:
+                path = self.expr_events(s.value.value, path, "a yielded expression")
+                continue
             if isinstance(s, ast.Expr) and isinstance(s.value, ast.Call):
-                c = s.value
-                u = ast.unparse(c.func)
-                if u in ("warn", "warnings.warn"):
+                if ast.unparse(s.value.func) in ("warn", "warnings.warn"):
                     continue
-                if u == "self._set_cutoff":
-                    self.emit(path, "(AMut A_cutoff)")
-                    continue
-                p2 = self.validator_call(c, path)
-                if p2 is not None:
-                    path = self.narrow(path, p2)
-                    continue
-                self.clean(s, "a work statement")
-                self.fh_access(s, path)
-                self.emit(path, "AWork")
+                path = self.expr_events(s.value, path, "a work statement")
                 continue
             if isinstance(s, ast.Assign) and len(s.targets) == 1:
                 tg, v = s.targets[0], s.value
@@ -577,18 +717,9 @@ class Chain:
                     g = self.guard(v.test)
                     for val, pol in ((v.body, g[1]), (v.orelse, not g[1])):
                         p2 = path + [(g[0], pol)]
-                        if not (isinstance(val, ast.Call)
-                                and self.validator_call(val, p2) is not None):
-                            self.clean(val, "a work expression")
-                            self.fh_access(val, p2)
-                            self.emit(p2, "AWork")
+                        self.expr_events(val, p2, "a work expression")
                     continue
-                p2 = self.validator_call(v, path) if isinstance(v, ast.Call) else None
-                if p2 is not None:
-                    path = self.narrow(path, p2)
-                else:
-                    self.clean(v, "a work expression")
-                    self.fh_access(v, path)
+                path = self.expr_events(v, path, "a work expression")
                 for m, x in zip(muts, tg.elts if isinstance(tg, ast.Tuple) else [tg]):
                     if m is None:
                         if not (isinstance(v, ast.Constant) and isinstance(v.value, bool)):
@@ -598,6 +729,23 @@ class Chain:
                     else:
                         self.emit(path, m)
                 continue
+            if isinstance(s, ast.If) and self.guard(s.test) is None and not s.orelse \
+                    and isinstance(s.test, ast.BoolOp):
+                # merged conditions: `if a and b: B` = `if a: if b: B`;
+                # `if a or b: raise` = `if a: raise` followed by `if b: raise`
+                vs = s.test.values
+                if isinstance(s.test.op, ast.And):
+                    inner = ast.If(test=vs[1] if len(vs) == 2 else ast.BoolOp(op=ast.And(), values=vs[1:]),
+                                   body=s.body, orelse=[])
+                    stmts = stmts[:i] + [ast.If(test=vs[0], body=[inner], orelse=[])] + stmts[i:]
+                    stmts.pop(i - 1)
+                    i -= 1
+                    continue
+                if len(s.body) == 1 and isinstance(s.body[0], ast.Raise):
+                    repl = [ast.If(test=v, body=s.body, orelse=[]) for v in vs]
+                    stmts = stmts[:i - 1] + repl + stmts[i:]
+                    i -= 1
+                    continue
             if isinstance(s, ast.If):
                 g = self.guard(s.test)
                 if g is None:
@@ -638,6 +786,21 @@ class Chain:
                     continue
                 if isinstance(s, ast.Assert):
                     continue
+                if isinstance(s, ast.For) and not s.orelse:
+                    # the events of one pass through the body (private helpers followed), if the
+                    # body is in the walker's subset; else it must be plain work
+                    probe = Chain(self.ctx, dict(self.cfg))
+                    probe.temps = dict(getattr(self, "temps", {}))
+                    try:
+                        p1 = probe.expr_events(s.iter, list(path), "the iterable of a loop")
+                        probe.walk(s.body, list(p1))
+                        ok = True
+                    except Unsupported:
+                        ok = False
+                    if ok:
+                        for p_, a_ in probe.events:
+                            self.emit(p_, a_)
+                        continue
                 self.clean(s, "a work statement")
                 self.fh_access(s, path)
                 self.emit(path, "AWork")
@@ -653,13 +816,9 @@ class Chain:
         return path + extra
 
     def ret_value(self, v, path):
-        if isinstance(v, ast.Call) and self.validator_call(v, path) is not None:
+        if isinstance(v, (ast.Name, ast.Constant)):
             return
-        if isinstance(v, ast.Name) or (isinstance(v, ast.Constant)):
-            return
-        self.clean(v, "a returned expression")
-        self.fh_access(v, path)
-        self.emit(path, "AWork")
+        self.expr_events(v, path, "a returned expression")
 
 
 # ---- entries --------------------------------------------------------------------------------------
@@ -730,15 +889,6 @@ Import ListNotations.
 Open Scope Z_scope.
 
 """
-
-
-def check_pins(ctx):
-    for src, path, text in PINS:
-        fn = find(ctx.mod(src), path)
-        body = [s for s in fn.body if not _is_doc(s)]
-        got = "\n".join(ast.unparse(s) for s in body)
-        if got != text:
-            raise Unsupported("%s:%s is not `%s`" % (src, path, text))
 
 
 def render(events):
